@@ -47,8 +47,12 @@ CHECKS["C03"] = dict(
 CHECKS["C10"] = dict(
     text="Bounds.tla: code-shaped mirror/clip vs the allowed-output relation checked by TLC on value x bounds(+-inf) x type x "
          "perturbation type x magnitude x samples -9..9 (thorough -20..20); every scenario replayed with injected integer samples, "
-         "reported perturbed variables and evaluator rows compared exactly (units of 1/4) by Trace_C10.",
+         "reported perturbed variables and evaluator rows compared exactly (units of 1/4) by Trace_C10 (two samplers, two realizations, "
+         "second evaluation of the evaluator, without and with a variable transform). TLAPS proves for ALL integers (proofs/KernelProofs.tla) "
+         "that the code-shaped mirror stays within the bounds, never alters a value inside them and equals one / two reflections whenever "
+         "those land inside.",
     note="Exact dyadic arithmetic; multi-width overshoots under MIRROR_BOTH may give any in-bounds value.",
+    technique="TLA+ specification model-checked with TLC and, for the integer kernel, proved with TLAPS; TLC-generated scenarios replayed into ropt; recorded traces validated against the specification by TLC",
     design="4 (C10)")
 
 CHECKS["C06"] = dict(
@@ -80,8 +84,10 @@ CHECKS["C13"] = dict(
     text="ConstraintInfo.tla over extended integers: TLC checks violation = distance to the interval, outside a finite bound <=> "
          "positive violation, and that the violation is determined by the two reported differences, for value x every finite/infinite "
          "bound mix; each scenario replayed through a plan evaluator step (variable bounds, linear rows, non-linear constraints, with and "
-         "without dyadic transforms) and a 'last' tracker; Trace_C13 compares every reported difference/violation exactly.",
-    note="Integer data; bound differences may be absent only if no variable bound is finite.",
+         "without dyadic transforms) and a 'last' tracker; Trace_C13 compares every reported difference/violation exactly (also for values "
+         "1/65536 beside a bound). TLAPS proves the three arithmetic facts for ALL integers (proofs/KernelProofs.tla).",
+    note="Integer data in units of 1/65536; bound differences may be absent only if no variable bound is finite.",
+    technique="TLA+ specification model-checked with TLC and, for the integer kernel, proved with TLAPS; TLC-generated scenarios replayed into ropt; recorded traces validated against the specification by TLC",
     design="4 (C13)")
 
 CHECKS["C07"] = dict(
